@@ -29,9 +29,11 @@ class _Raise(Exception):
 
 
 class EofEval:
-    def __init__(self, loop, eof=b""):
+    def __init__(self, loop, eof=b"", consts=None):
+        """consts: module-level names bound once to a literal (e.g. a header size): known values inside the loop"""
         self.loop = loop
         self.eof = eof
+        self.consts = dict(consts or {})
         self.grown = set()
         for n in ast.walk(loop):
             if isinstance(n, ast.Call) and isinstance(n.func, ast.Attribute) and n.func.attr in GROWS and isinstance(n.func.value, ast.Name):
@@ -200,7 +202,7 @@ class EofEval:
     def run(self):
         """outcomes of one iteration of the loop body once the stream is exhausted"""
         outs = []
-        for kind, st in self.block(self.loop.body, ({}, [])):
+        for kind, st in self.block(self.loop.body, (dict(self.consts), [])):
             if kind == "next":
                 kind = "back"
             elif kind == "continue":
